@@ -20,6 +20,7 @@ func c08(c *Ctx) {
 	c.tracerAgreement("R08.6")
 	c.rowsErr("R08.8")
 	c.chunkAliasing("R08.9")
+	c.foreignKeysOnEveryConnection("R08.10")
 	R.Min("R08.1", "statement site evaluations", res.sites, 100)
 	R.Min("R08.3", "chunk-dependent statement sites", res.chunkSites, 12)
 }
